@@ -46,3 +46,7 @@ pub fn deb822_parse(fs: &[&str]) -> String {
     });
     format!("lex={}|{}|strict={}", lx, rel, strict)
 }
+
+pub fn streams() -> Vec<(&'static str, crate::StreamFn)> {
+    vec![("deb822-parse", deb822_parse as crate::StreamFn)]
+}
